@@ -198,7 +198,8 @@ func main() {
 		}
 	}
 	undecodableTwins(rep)
-	localBlobStoreRefuses(rep)
+	localBlobStoreRefuses(rep, false)
+	localBlobStoreRefuses(rep, true)
 	rep.Finish()
 }
 
@@ -206,7 +207,7 @@ func main() {
 // *local* backend: the shared blob table refuses every new row (a trigger raises an error, as a full disk, a lock that is
 // not released or a constraint would) while messages with out-of-line parts are delivered and appended. Every message that
 // is acknowledged must return its parts' own octets; one that cannot be stored must be refused.
-func localBlobStoreRefuses(rep *hx.Report) {
+func localBlobStoreRefuses(rep *hx.Report, withS3 bool) {
 	dir, err := os.MkdirTemp(filepath.Dir(hxWorkDir()), "raven-verif-c15r-")
 	if err != nil {
 		return
@@ -221,6 +222,23 @@ func localBlobStoreRefuses(rep *hx.Report) {
 		return
 	}
 	defer w.Close()
+	if withS3 {
+		// the object store is up and takes every object; only the row that records where the object went is refused
+		f := newFakeS3()
+		defer f.srv.Close()
+		mkS3 := func() *blobstorage.S3BlobStorage {
+			s, err := blobstorage.NewS3BlobStorage(blobstorage.Config{Enabled: true, Endpoint: f.srv.URL, Region: "us-east-1", Bucket: "b", AccessKey: "k", SecretKey: "s", Timeout: 1})
+			if err != nil {
+				return nil
+			}
+			return s
+		}
+		if s3 := mkS3(); s3 != nil {
+			w.Stor = storage.NewStorageWithS3(w.Mgr, s3)
+			w.Srv.SetS3Storage(mkS3())
+			rep.Hit("local-blob-refusal:with-object-store")
+		}
+	}
 	shared := w.Mgr.GetSharedDB()
 	if _, err := shared.Exec("CREATE TRIGGER verif_refuse_blobs BEFORE INSERT ON blobs BEGIN SELECT RAISE(ABORT, 'injected: blob row refused'); END"); err != nil {
 		rep.Note("local-blob-refusal probe skipped: %v", err)
@@ -244,6 +262,9 @@ func localBlobStoreRefuses(rep *hx.Report) {
 	var all []sent
 	for i, cte := range []string{"8bit", "7bit", "binary", "8bit"} {
 		tok := fmt.Sprintf("REFUSE-%d", i)
+		if withS3 {
+			tok = fmt.Sprintf("REFUSES3-%d", i)
+		}
 		rep.Case("local-blob-refusal|"+tok, true)
 		acked := false
 		if i%2 == 0 {
